@@ -76,6 +76,14 @@ func Run(c *hx.Ctx) {
 	e := &engine{c: c, fsck: c.Args["mode"] == "fsck"}
 	e.probeDefects()
 	if os.Getenv("VERIF_EXTTREE_DEV") != "" {
+		if os.Getenv("VERIF_EXTTREE_DEV") == "enospc" {
+			e.deepEnospcs()
+			return
+		}
+		if os.Getenv("VERIF_EXTTREE_DEV") == "path" {
+			e.pathWalks()
+			return
+		}
 		if os.Getenv("VERIF_EXTTREE_DEV") == "shrink" {
 			e.dirShrinks()
 			return
@@ -92,6 +100,8 @@ func Run(c *hx.Ctx) {
 	e.deepTrees()
 	e.dirShrinks()
 	e.dirRelocs()
+	e.pathWalks()
+	e.deepEnospcs()
 	e.histories()
 }
 
@@ -288,6 +298,10 @@ func (e *engine) runHistory(h hist, scratch string) {
 		if e.fsck {
 			lpre = e.preLinks(d, cfg, rn, o)
 		}
+		var opre *ownPre
+		if e.fsck && c.Want(id) {
+			opre = e.preOwn(d, cfg, rn, o)
+		}
 		var dpre *dirPre
 		if !e.fsck && o.kind == "remove" {
 			dpre = e.preDir(d, cfg, rn, o)
@@ -345,6 +359,9 @@ func (e *engine) runHistory(h hist, scratch string) {
 		if !stop {
 			if e.fsck {
 				e.fsckStep(id, cfg, d, o, out, &prevAcct, pre, lpre, rn, rmParentBlocks, scratch, fail)
+				if opre != nil && out.refused == nil && !failed {
+					emitOwnGrow(c, id, opre, d, cfg.Start)
+				}
 			} else if out.refused == nil {
 				removeTaint := o.kind == "remove" && e.def.remove
 				content := map[string]bool{o.path: true}
